@@ -117,12 +117,52 @@ func c27ResultReceiver(g *core.FuncInfo, call *ast.CallExpr, k int) *types.Var {
 }
 
 // c27SingleAssigned: v is a local of g with exactly one definition, none of them in a nested literal.
+//
+// A named result of g qualifies too (it starts at its zero value and is then defined once) when that
+// one definition is passed before every test of the variable and before every return that yields it:
+// no decision of g can then see the zero value it had before.
 func c27SingleAssigned(g *core.FuncInfo, v *types.Var) bool {
-	if v == nil || !(g.Body.Pos() <= v.Pos() && v.Pos() < g.Body.End()) || len(assignsToVar(g, v)) != 1 {
+	if v == nil {
+		return false
+	}
+	defs := assignsToVar(g, v)
+	if len(defs) != 1 {
 		return false
 	}
 	for _, l := range allLits(g) {
 		if len(assignsToVar(l, v)) > 0 {
+			return false
+		}
+	}
+	if g.Body.Pos() <= v.Pos() && v.Pos() < g.Body.End() {
+		return true
+	}
+	if !c27IsResult(g, v) {
+		return false
+	}
+	def := []core.Point{defs[0].Pt}
+	for _, b := range g.CFG().Blocks {
+		cond := g.BranchCond(b)
+		if !b.Live || cond == nil || !mentionsObj(g, cond, v) {
+			continue
+		}
+		if dom, _ := g.MustPassBefore(def, core.Point{B: b, I: len(b.Nodes) - 1}); !dom {
+			return false
+		}
+	}
+	for _, rp := range g.ReturnPoints() {
+		r, isRet := rp.Node().(*ast.ReturnStmt)
+		if !isRet {
+			return false // implicit return of the named results
+		}
+		uses := len(r.Results) == 0
+		for _, res := range r.Results {
+			uses = uses || mentionsObj(g, res, v)
+		}
+		if !uses {
+			continue
+		}
+		if dom, _ := g.MustPassBefore(def, rp); !dom {
 			return false
 		}
 	}
